@@ -164,7 +164,13 @@ def acceptance_rule(chk, rule5='C05.R5', rule11='C11.R2'):
                         def play_full(eng, c, who):
                             f.call_method(eng, 'play_card_by_player', c, P[who])
                             played.append(c)
-                        active, led = setup(full, truth, play_full)
+                        try:
+                            active, led = setup(full, truth, play_full)
+                        except FoldRaise as r_:
+                            chk.fail(rule5, w5, q5, 'full engine refuses a legal play in turn while setting up a trick',
+                                     f'PlayingPhaseWithHands (declarer {declarer}): a card held by the seat on turn, following suit, is refused with {r_.kind} '
+                                     f'({str(r_)[:80]}) while playing the first {k_played} card(s) of a trick')
+                            continue
                         card = pick(truth, active, led, played)
                         if card is None:
                             continue
